@@ -402,6 +402,11 @@ func (m *manager) updateValidationStatus(ctx context.Context, chid datatransfer.
 
 	// dispatch channel events and generate a response message
 	chst, response, err := m.processValidationUpdate(ctx, chid, result)
+	if err != nil {
+		// the channel is unknown or terminated, or the update could not be recorded:
+		// there is no channel state to drive the transport with
+		return err
+	}
 
 	// dispatch transport updates
 	return m.handleTransportUpdate(ctx, chst, response, result, err)
